@@ -203,6 +203,112 @@ def scenario_routes(env, cfg):
     env.reach()
 
 
+def scenario_routes_args(env, cfg):
+    """routes that forward run-time arguments (`args`, e.g. the time) to boundary conditions that depend on them"""
+    import pde
+    from pde.backends import get_backend
+
+    B._prepare(env.sym)
+    grid, geom = X.make_grid(env, dict(B.GRIDS[cfg["grid"]], geometry="dyadic"))
+    op = cfg["op"]
+    rank_in, rank_out = X.RANKS[op]
+    assert rank_in == 0
+    dim = grid.dim
+    t = env.real("t", -2, 2)
+    # expression conditions that depend on time (and on the coordinates along the face), rotated over the faces
+    spec = {}
+    forms = ["value_expression", "derivative_expression"]
+    for k, (a, upper) in enumerate(B._faces(grid)):
+        others = [grid.axes[i] for i in range(grid.num_axes) if i != a]
+        text = f"{0.5 + 0.25 * k} + {1 + k}*t" + "".join(f" + 0.5*{nme}*t" for nme in others)
+        spec[B._side_name(grid, a, upper)] = {forms[(k + cfg.get("rot", 0)) % 2]: text}
+    for a in range(grid.num_axes):
+        if grid.periodic[a]:
+            spec[grid.axes[a]] = "periodic"
+    x = env.array("u", grid.shape, -4, 4)
+    dtype = object if env.sym else float
+    if env.sym:
+        args = {"t": t}
+    else:
+        from pde.tools.numba import numba_dict
+
+        args = numba_dict(t=float(t))
+    nb = get_backend("numba")
+    results = {}
+    f = pde.ScalarField(grid, dtype=dtype)
+    f.data = x
+    results["field.apply_operator(args)"] = np.array(f.apply_operator(op, bc=spec, backend="numba", args=args).data, copy=True)
+    bcs = grid.get_boundary_conditions(spec, rank=0)
+    captured = {}
+    nbmod = importlib.import_module("pde.backends.numba.backend")
+    saved_overload = nbmod.nb_overload
+    if env.sym:
+        # un-jitted run: numba never calls the overload of `apply_op`; capture it so that its two specialisations
+        # (the function bodies numba compiles for `out is None` / `out` given) are executed as well
+        def _capture(fn, **kw):
+            def deco(ol):
+                captured[fn.__name__] = ol
+                return ol
+
+            return deco
+
+        nbmod.nb_overload = _capture
+    try:
+        f2 = nb.make_operator(grid, op, bcs=bcs)
+    finally:
+        nbmod.nb_overload = saved_overload
+    shape_out = (dim,) * rank_out + grid.shape
+    results["make_operator[numba](args)"] = np.array(f2(np.array(x, copy=True), None, args), copy=True)
+    out2 = np.empty(shape_out, dtype=dtype)
+    f2(np.array(x, copy=True), out2, args)
+    results["make_operator[numba](out=,args)"] = out2
+    if env.sym:
+        import numba as _nb
+
+        ol = captured["apply_op"]
+        impl_alloc = ol(None, _nb.types.none, None)
+        impl_out = ol(None, _nb.types.float64[:], None)
+        results["numba-overload:allocating-specialisation(args)"] = np.array(impl_alloc(np.array(x, copy=True), None, args), copy=True)
+        out3 = np.empty(shape_out, dtype=dtype)
+        impl_out(np.array(x, copy=True), out3, args)
+        results["numba-overload:out-specialisation(args)"] = out3
+    # interpreted setter + raw operator
+    raw = grid.make_operator_no_bc(op, backend="numba")
+    arr_full = np.empty(grid._shape_full, dtype=dtype)
+    arr_full[...] = 0
+    arr_full[tuple(grid._idx_valid)] = x
+    bcs.set_ghost_cells(arr_full, args=args)
+    out4 = np.empty(shape_out, dtype=dtype)
+    raw(arr_full, out4)
+    results["set_ghost_cells(args)+make_operator_no_bc"] = out4
+    # reference: the same conditions with the time substituted as a constant
+    spec_const = {}
+    for k, (a, upper) in enumerate(B._faces(grid)):
+        others = [grid.axes[i] for i in range(grid.num_axes) if i != a]
+        coords = [X.full_positions(geom, grid.shape)[i][1:-1] for i in range(grid.num_axes) if i != a]
+        bshape = tuple(n for i, n in enumerate(grid.shape) if i != a)
+        val = np.empty(bshape, dtype=dtype)
+        for idx in np.ndindex(*bshape):
+            v = (0.5 + 0.25 * k) + (1 + k) * t
+            for j, i in enumerate(idx):
+                v = v + 0.5 * coords[j][i] * t
+            val[idx] = v
+        typ = forms[(k + cfg.get("rot", 0)) % 2].replace("_expression", "")
+        spec_const[B._side_name(grid, a, upper)] = {"type": typ, "value": val if bshape else val[()]}
+    for a in range(grid.num_axes):
+        if grid.periodic[a]:
+            spec_const[grid.axes[a]] = "periodic"
+    f5 = pde.ScalarField(grid, dtype=dtype)
+    f5.data = x
+    results["constant-conditions-with-the-time-substituted"] = np.array(f5.apply_operator(op, bc=spec_const, backend="numba").data, copy=True)
+    names = list(results)
+    ref = names[0]
+    env.observe("ref", results[ref])
+    for n in names[1:]:
+        env.close(f"{ref}={n}", list(results[ref].flat), list(results[n].flat), scale=SC)
+    env.reach()
+
+
 # ----------------------------------------------------------------------------- schedules (prange race freedom)
 
 
@@ -475,6 +581,11 @@ def cases(tier, seed):
                         else:
                             cfg["scipy"] = True
                     out.append(_case(f"{gname}:{op}:rot{rot}:{'inhom' if inhom else 'hom'}", **cfg))
+    # run-time arguments (time) forwarded to time-dependent conditions on every route, with and without `out`
+    for gname in ("cart1", "cart2", "cart2:periodic-x") if "cart2:periodic-x" in B.GRIDS else ("cart1", "cart2"):
+        for op in ("laplace", "gradient"):
+            for rot in (0, 1):
+                out.append({"name": f"args:{gname}:{op}:rot{rot}:time-dependent-bc", "scenario": "scenario_routes_args", "cfg": {"grid": gname, "op": op, "rot": rot}})
     # annular / special grids for the matrix route (first/last row code paths)
     for gname in ("polar:hole", "sph:nohole", "cyl:hole", "cyl:periodic_z", "cart1", "cart3"):
         pass
